@@ -12,14 +12,24 @@
      req_ptr_null / req_any_null : null has no shape (a pointer or slot whose content serializes as null comes back nil)
      req_struct                  : omitted-as-empty fields come back empty (nil vs empty under omitempty)
      req_any_num / req_any_f32   : the concrete numeric Go type inside untyped slots
-   and nothing else: scalars, strings, byte strings, slices, arrays, maps (as sets of entries) are equal. *)
+     req_transform               : values of a type with a transform are compared through their serial forms
+                                   (plain equality when the serial form is a scalar: req_transform_atom)
+   and nothing else: scalars, strings, byte strings, slices, arrays, maps (as sets of entries) are equal.
+
+   [atlas_wf] allows all four kinds of atlas entries: struct maps, transforms (the modelled kinds 1..9, tagged
+   or not, as map key types, with an untyped serial form), keyed unions, map morphisms.  [domb] is the domain:
+   transformed values lie where the user's backward function undoes the forward one ([tr_dom]); untyped slots
+   hold what an untyped slot gives back; no pointer or untyped slot holds a transformed value whose serial
+   form is null (null has no shape); a tagged transform with an untyped serial form does not hold a value of a
+   tagged type (a token carries one tag).  Each restriction is needed (RoundTripProof.v, examples *_refuted). *)
 From Coq Require Import List ZArith.
 Require Import Tok GoVal Marshal Unmarshal ObjProof RoundTripProof.
 Import ListNotations.
 Open Scope Z_scope.
 
-(* atlases of struct-map entries (renamed / ignored / omitempty fields, embedded routes, tags);
-   untyped slots hold what an untyped slot can hold natively, or values of tagged types *)
+(* atlases of struct-map entries (renamed / ignored / omitempty fields, embedded routes, tags), transforms,
+   keyed unions and map morphisms; untyped slots hold what an untyped slot can hold natively, or values of
+   tagged types *)
 Theorem C01_token_roundtrip : forall E A t v f ts,
   atlas_wf E A = true -> wt E A t v -> domb E A t v = true -> marshal A f t v = MOk ts ->
   exists f' v', unmarshal E A f' t (zero 50 E t) ts = UOk v' [] /\ req E A t v v' /\ wt E A t v'.
@@ -40,6 +50,18 @@ Theorem C01_token_roundtrip_plain : forall E mode t v f ts,
   exists f' v', unmarshal E (Atlas [] mode) f' t (zero 50 E t) ts = UOk v' [] /\ req E (Atlas [] mode) t v v'.
 Proof. exact roundtrip_stage1. Qed.
 Print Assumptions C01_token_roundtrip_plain.
+
+(* the modelled transform pairs are inverse to each other on their domains *)
+Theorem C01_transform_inverse : forall kind v w,
+  tr_dom kind v = true -> tr_fwd kind v = Some w -> tr_bwd kind w = Some v.
+Proof. exact tr_roundtrip. Qed.
+
+(* kernel-evaluated instance with every kind of entry (tagged transform with interface{} serial form included) *)
+Example C01_token_roundtrip_all_entry_kinds :
+  atlas_wf s4_E s4_A = true /\ wtb s4_E s4_A (GStruct 1) s4_v = true /\ domb s4_E s4_A (GStruct 1) s4_v = true /\
+  marshal s4_A 40 (GStruct 1) s4_v = MOk s4_ts /\
+  unmarshal s4_E s4_A 60 (GStruct 1) (zero 50 s4_E (GStruct 1)) s4_ts = UOk s4_v' [].
+Proof. vm_compute. repeat split; reflexivity. Qed.
 
 (* kernel-evaluated instance *)
 Example C01_token_roundtrip_example :
